@@ -103,3 +103,43 @@ def _(c):
                "same(%s.coinstate, prior) or (%s and same(%s.coinstate, %s))" % (CM, ACCEPTED, CM, new_state))
     c.modifies("%s.coinstate" % CM, "%s.transaction_pool" % CM, "%s.last_known_valid_coinstate" % CM,
                "%s.write_buffer" % STORE, "%s.disk" % STORE, "GS.relayed_blocks", "GS.now")
+
+
+@NW.contract("skepticoin.networking.remote_peer.ConnectedRemotePeer.handle_transaction_received", props=["C13", "C20"])
+def _(c):
+    c.params(self=SH['remote_peer'], header=SH['header'], message=SH['data_tx'])
+    c.let(tx="message.data", pool0="%s.transaction_pool" % CM, cs="%s.coinstate" % CM, relayed0="GS.relayed_transactions")
+    c.requires(POOL_VALID % {'pool': 'pool0', 'cs': 'cs'}, POOL_DISTINCT % {'pool': 'pool0'})
+    c.ensures(
+        # the pool either is what it was, or grew by exactly this transaction, which then is valid at the head
+        "same(%s.transaction_pool, pool0) or (same(%s.transaction_pool, pool0 + [tx])"
+        " and G.tx_by_itself(tx) and G.tx_in_state(tx, cs.current_chain_hash, cs))" % (CM, CM),
+        # relayed exactly when admitted
+        "same(GS.relayed_transactions, relayed0 + [tx] if len(%s.transaction_pool) == len(pool0) + 1 else relayed0)" % CM)
+    c.always("same(%s.coinstate, cs)" % CM)
+    # an exception (e.g. while relaying) leaves the pool as it was or grown by the valid transaction - never anything else
+    c.on_raise("same(%s.transaction_pool, pool0) or (same(%s.transaction_pool, pool0 + [tx])"
+               " and G.tx_by_itself(tx) and G.tx_in_state(tx, cs.current_chain_hash, cs))" % (CM, CM))
+    c.modifies("%s.transaction_pool" % CM, "GS.relayed_transactions")
+
+
+# ---------------------------------------------------------------------------------------------------- dispatch (C20)
+
+for _h in ("handle_hello_message_received", "handle_get_blocks_message_received", "handle_inventory_message_received",
+           "handle_get_data_message_received", "handle_data_message_received", "handle_get_peers_message_received",
+           "handle_peers_message_received"):
+    @NW.contract("skepticoin.networking.remote_peer.ConnectedRemotePeer." + _h, props=["C20"])
+    def _(c):
+        c.params(self=SH['remote_peer'], header=SH['header'], message=CLS('Message'),
+                 get_data_message=CLS('Message'))
+        c.modifies("self.hello_received", "self.ban_score")
+        c.trust("message handler behind the dispatcher: may raise; what it can reach is bounded by C20.handler-frames")
+
+
+@NW.contract("skepticoin.networking.remote_peer.ConnectedRemotePeer.handle_message_received", props=["C20"])
+def _(c):
+    c.params(self=SH['remote_peer'], header=SH['header'], message=CLS('Message'))
+    # protocol order: before the peer has greeted, only a greeting is dispatched; anything else raises (and the
+    # connection is dropped by the selector handler)
+    c.ensures("isinstance(message, HelloMessage) or old(self.hello_received)")
+    c.modifies("self.hello_received", "self.ban_score")
